@@ -110,8 +110,9 @@ def model_check(run):
     for ln in res["printed"]:
         if ln.startswith('"PLAN|'):
             _, h, cls, kinds = ln.strip().strip('"').split("|")
-            ent = plan.setdefault(tuple(h.split(";")), {"cls": None, "kinds": set()})
+            ent = plan.setdefault(tuple(h.split(";")), {"cls": None, "kinds": set(), "variants": []})
             c = cls.split(",")
+            ent["variants"].append((kinds.split(","), c))
             # the exposure of step i is the same for all outcome choices of step i, but differs with the outcomes
             # of earlier steps (a failed step skips the clearing): keep the union per position
             ent["cls"] = c if ent["cls"] is None else ["".join(sorted(set(a) | set(b))) for a, b in zip(ent["cls"], c)]
@@ -231,6 +232,9 @@ class Replayer:
                 if "/.cache/codec/" not in cf:
                     raise MachineryError("history driver did not load the private build of mlw_codec (%s)" % cf)
             if len(steps) < len(h):
+                if o["rc"] == "timeout":
+                    # far beyond any compilation of these networks: an overloaded machine, not a verdict
+                    raise MachineryError("history driver timed out on [%s] (hashseed %s)" % ("; ".join(h), sd))
                 if res is None and isinstance(o["rc"], int) and o["rc"] > 0:
                     # the driver itself failed before the first step (import error...): machinery, not verdict
                     raise MachineryError("history driver failed: rc=%s\n%s" % (o["rc"], o["stderr"]))
@@ -359,14 +363,15 @@ def what_differs(ev, prop):
         return "output differs" if ev["dig"] != ev["idig"] else "summary differs"
     if prop == "HashSeedIndependent":
         if ev["ok"] != ev["zok"] or ev["exc"] != ev["zexc"]:
-            return "seed %d: %s" % (ev["seed"], ev["exc"] or "succeeds")
-        return "seed %d: %s" % (ev["seed"], "output differs" if ev["dig"] != ev["zdig"] else "summary differs")
+            return "seed %d vs 0: %s" % (ev["seed"], ev["exc"] or "succeeds")
+        return "seed %d vs 0: %s" % (ev["seed"], "output differs" if ev["dig"] != ev["zdig"] else "summary differs")
     return "output differs between entry points"
 
 
 def classify(viol, meta, evindex):
-    """violations (t, i, prop) -> {key: [class history, prop, sig, [(history, seed, step)...]]}; the class of a failing
-    step is the shortest replayed history ending in that step that shows the same failure."""
+    """violations (t, i, prop) -> {key: class}; the class of a failing step is the shortest replayed history ending in
+    that step that shows the same failure (the pair culprit;victim if that pair alone reproduces it).
+    key = clause|minimal history|what differs|via=<doors observed at the failing step>."""
     sigs = {}       # (history prefix, seed) -> {(prop, sig)} at its last step
     for t, i, prop in viol:
         h, sd = meta[t]
@@ -382,10 +387,18 @@ def classify(viol, meta, evindex):
                 if (prop, sig) in sigs.get((pair, sd), ()) or (prop, sig) in sigs.get((pair, 0), ()):
                     cls = pair
                     break
-        key = "%s|%s|%s" % (prop, ";".join(cls), sig)
-        ent = classes.setdefault(key, {"cls": cls, "prop": prop, "sig": sig, "cases": []})
-        ent["cases"].append((h, sd, i))
-    return classes
+        ent = classes.setdefault((prop, cls, sig), {"cls": cls, "prop": prop, "sig": sig, "cases": []})
+        ent["cases"].append((h, sd, i, t))
+    out = {}
+    for (prop, cls, sig), c in classes.items():
+        # the doors through which the failing step of the shortest recorded case read earlier state:
+        # W stale weight-cache hit, E equivalence id served from the memo, A address assigned to an id that had one
+        h, sd, i, t = min(c["cases"], key=lambda x: (len(x[0]), x[1], x[0]))
+        ev = evindex[(t, i)]
+        via = ("W" if ev["wks"] else "") + ("E" if ev["vks"] else "") + ("A" if ev["ams"] else "")
+        c["rep"] = (h, sd, i, t)
+        out["%s|%s|%s|via=%s" % (prop, ";".join(cls), sig, via or "none")] = c
+    return out
 
 
 # ------------------------------------------------------------------------------------- selection of histories
@@ -486,7 +499,7 @@ def _report(run, rp, stage, events, meta, viol, models_of):
     classes = classify(viol, meta, evindex)
     written = {}
     listing = {}
-    for key in sorted(classes, key=lambda k: (len(classes[k]["cls"]), k)):
+    for key in sorted(classes, key=lambda k: (len(classes[k]["cls"]), sum(not x.startswith("main:") for x in classes[k]["cls"]), k)):
         c = classes[key]
         listing[key] = len(c["cases"])
         known = any(common._match(k, key) for k in run._known)
@@ -495,14 +508,13 @@ def _report(run, rp, stage, events, meta, viol, models_of):
             continue
         if not known:
             written[g] = written.get(g, 0) + 1
-        h, sd, i = min(c["cases"], key=lambda x: (len(x[0]), x[1], x[0]))
-        t = next(t for t, m in meta.items() if m == (h, sd))
+        h, sd, i, t = c["rep"]
         ev = evindex[(t, i)]
         letters = {x: {k: rp.table[x][k] for k in ("entry", "args", "mo", "acc")} for x in set(h) | set(c["cls"])}
         what = "%s: step %d (%s) of history [%s] under PYTHONHASHSEED=%d: %s; alone: %s" % (
             c["prop"], i, h[i - 1], "; ".join(h), sd, what_differs(ev, c["prop"]),
             ("ok " + ev["idig"]) if ev["iok"] else ev["iexc"])
-        what += " | minimal history [%s], %d recorded cases" % ("; ".join(c["cls"]), len(c["cases"]))
+        what += " | minimal history [%s], %d recorded cases | key=%s" % ("; ".join(c["cls"]), len(c["cases"]), key)
         run.violation(key, what, {"stage": stage, "history": list(h), "hashseed": sd, "step": i, "minimal": list(c["cls"]),
                                   "letters": letters, "models": models_of(set(h) | set(c["cls"])),
                                   "observed": {k: ev[k] for k in ("ok", "exc", "dig", "csv", "vks", "wks", "ams")},
@@ -562,11 +574,16 @@ def main(tier):
     plan_cmp = {"steps": 0, "agree": 0, "predicted_not_observed": 0, "observed_not_predicted": 0, "examples": []}
     exposed_steps = deviating = unexplained = 0
     bad_steps = {(t, i) for t, i, p in viol if p in ("HistoryIndependent", "NoFailureFromHistory")}
+    kind_of = {(t, i): ("fail" if p == "NoFailureFromHistory" else "tainted") for t, i, p in viol
+               if p in ("HistoryIndependent", "NoFailureFromHistory")}
     for ev in events:
         h, s = meta[ev["t"]]
         if s != 0:
             continue
-        pred = plan[h]["cls"][ev["i"] - 1]
+        # the plan line that made the same choices as the code did in the earlier steps (a failed step skips the clearing)
+        seen = [kind_of.get((ev["t"], j), "ok") for j in range(1, ev["i"])]
+        match = [c for k, c in plan[h]["variants"] if k[:ev["i"] - 1] == seen]
+        pred = match[0][ev["i"] - 1] if match else plan[h]["cls"][ev["i"] - 1]
         obs = ("W" if ev["wks"] else "") + ("A" if ev["ams"] else "")
         plan_cmp["steps"] += 1
         p2 = "".join(c for c in pred if c in "WA")
@@ -611,8 +628,12 @@ def main(tier):
     if md["total"]:
         # which clearing policy of History.tla describes the code better?
         _, dfix = validate(run, events, "HistoryTrace(clear_at_entry)", cfg="HistoryTrace_Fixed.cfg", account=False)
-        md["drift_under_policy_clear_at_entry"] = len(dfix)
-        md["drift_under_policy_as_is"] = len(drift)
+        kf = {}
+        for t, i, d in dfix:
+            kf[d] = kf.get(d, 0) + 1
+        md["alphabet_drift_under_policy_clear_at_entry"] = {"total": len(dfix), "by_kind": kf,
+                                                            "examples": [{"history": list(meta[t][0]), "step": i, "kind": d} for t, i, d in dfix[:5]]}
+        md["alphabet_drift_under_policy_as_is"] = len(drift)
     run.cov["model_drift"] = md
     run.cov["plan_vs_code"] = plan_cmp
     run.cov["leaks"] = {"steps_reading_stale_state": exposed_steps, "of_which_deviating": deviating,
